@@ -49,6 +49,21 @@ func (f *Frame) execStmt(st *State, s ast.Stmt) *State {
 		if x.Tok == token.DEC {
 			op = token.SUB
 		}
+		// `assert at incr:<var> [label] e`: proved where the named counter is stepped (before the step)
+		if id, ok := ast.Unparen(x.X).(*ast.Ident); ok && f.top && f.contract != nil {
+			for _, a := range f.contract.Asserts {
+				if a.Anchor == "incr:"+id.Name {
+					k := f.c.counters["assert:"+a.Clause.Label]
+					f.c.counters["assert:"+a.Clause.Label] = k + 1
+					func() {
+						defer f.specGuard(x, "assert at "+a.Anchor)
+						t := f.specBool(st, a.Clause.Expr, f.loopSpecEnv(st))
+						f.oblige(st, "assert", fmt.Sprintf("%s@%s#%d", a.Clause.Label, id.Name, k), t, x.Pos(), a.Clause.Src)
+						st.assume(t)
+					}()
+				}
+			}
+		}
 		cur := f.eval(st, x.X)
 		t := f.typeOf(x.X)
 		nv := f.arith(st, op, cur, Val{T: "1", Ty: t}, t, x.Pos())
